@@ -61,7 +61,7 @@ def apply(xp, x, o, is_dask):
     if op == "stack":
         return xp.stack([x, x])
     if op == "perm":
-        return xp.transpose(x, [a - 1 for a in o["axes"]])
+        return x.transpose([a - 1 for a in o["axes"]])      # (the function form da.transpose is not implemented by the engine)
     if op == "concatr":
         y = x.rechunk(rechunk_target(x.shape, o["how"])) if is_dask else x
         return xp.concatenate([x, y], axis=o["axis"] - 1)
